@@ -50,6 +50,7 @@ type Pipe struct {
 	dir     int
 	count   int
 	silent  bool // black hole: everything entering is dropped, nothing leaves
+	blockTx bool // sends block until their context is cancelled (a hung relay)
 	hold    bool // deliveries are paused (packets stay queued) unless allow > 0
 	allow   int
 	lastRdy time.Time
@@ -142,6 +143,15 @@ func caller() string {
 	return "other"
 }
 
+// SetBlockTx makes every send hang until its context is cancelled.
+func (s *Sim) SetBlockTx(v bool) {
+	for _, p := range s.pipes {
+		p.mu.Lock()
+		p.blockTx = v
+		p.mu.Unlock()
+	}
+}
+
 // SetSilent turns the transport into a black hole in both directions.
 func (s *Sim) SetSilent(v bool) {
 	for _, p := range s.pipes {
@@ -163,6 +173,12 @@ func (s *Sim) sendFunc(ep int) func(ctx context.Context, b []byte) error {
 		by := caller()
 		cp := append([]byte(nil), b...)
 		p.mu.Lock()
+		if p.blockTx {
+			p.mu.Unlock()
+			s.log(Event{EP: ep, Kind: "emit-blocked", Pkt: cp, By: by})
+			<-ctx.Done()
+			return ctx.Err()
+		}
 		idx := p.count
 		p.count++
 		f := Fault{}
@@ -261,6 +277,7 @@ type GbnScenario struct {
 	PongNs     int64            `json:"pong"`
 	RunFor     time.Duration    `json:"run_for"` // virtual time budget after handshake
 	Seed       int64            `json:"seed"`
+	RealTime   bool             `json:"real_time,omitempty"` // run outside a synctest bubble (wall clock)
 }
 
 type RandFault struct {
@@ -368,7 +385,11 @@ func RunGbnBody(t *testing.T, sc *GbnScenario, body Body) *GbnResult {
 				}
 			}
 		}()
-		synctest.Test(t, func(t *testing.T) {
+		runner := func(f func(t *testing.T)) { synctest.Test(t, f) }
+		if sc.RealTime {
+			runner = func(f func(t *testing.T)) { f(t) }
+		}
+		runner(func(t *testing.T) {
 			sim := NewSim(t, sc.plan(), sc.Latency)
 			ctx, cancel := context.WithCancel(context.Background())
 			defer cancel()
@@ -404,7 +425,11 @@ func RunGbnBody(t *testing.T, sc *GbnScenario, body Body) *GbnResult {
 			}
 			res.wait()
 			cancel()
-			synctest.Wait()
+			if sc.RealTime {
+				time.Sleep(50 * time.Millisecond)
+			} else {
+				synctest.Wait()
+			}
 			sim.mu.Lock()
 			res.Events = sim.events
 			sim.mu.Unlock()
